@@ -54,6 +54,34 @@ def build_dag(sc, ap):
     return DAGCode(phases, sc.initial)
 
 
+# ---- seam: the order in which fusion walks the clashing names.  dagrt (like pymbolic) iterates a plain set
+# intersection there, so which fresh name (temp_2 or temp_3) a clashing name gets follows PYTHONHASHSEED.
+# Fusion asks pymbolic.imperative.analysis.get_all_used_identifiers for the two name sets at call time; the
+# simulator hands back sets whose intersection iterates in an order drawn from the tape.
+_CLASH_CHOOSER = [None]
+
+
+class _IdSet(set):
+    def __and__(self, other):
+        from simdag.seams.ordfs import OrdFS
+        return OrdFS(set.__and__(self, other), _CLASH_CHOOSER[0], "clashing_names")
+
+    def __or__(self, other):
+        return _IdSet(set.__or__(self, other))
+
+
+def _own_clash_order():
+    import pymbolic.imperative.analysis as _an
+    if getattr(_an.get_all_used_identifiers, "_simdag", False):
+        return
+    real = _an.get_all_used_identifiers
+
+    def get_all_used_identifiers(stmts):
+        return _IdSet(real(stmts))
+    get_all_used_identifiers._simdag = True
+    _an.get_all_used_identifiers = get_all_used_identifiers
+
+
 def snapshot(dag):
     """Structural dump of a description (to show that fusion leaves its inputs alone)."""
     out = []
@@ -141,6 +169,17 @@ def names_of(stmts):
 
 
 def run_c16(ctx):
+    tape = ctx.tape
+    from simdag.seams.ordfs import TapeChooser
+    _own_clash_order()
+    _CLASH_CHOOSER[0] = TapeChooser(tape, ctx.log, counter=lambda site: ctx.count("fault:perm_clashing_names"))
+    try:
+        return _run_c16(ctx)
+    finally:
+        _CLASH_CHOOSER[0] = None
+
+
+def _run_c16(ctx):
     tape = ctx.tape
     with tape.span("knobs"):
         n_ph = 1 + tape.draw(2, "nph")
